@@ -171,6 +171,11 @@ def path_shapes(raw, recv_path: str, user_groups, user_dsets):
         ("abs:toc-missing", "/metador_container/links/zz/yy"),
         ("rel:dot", "./metador_x"),
         ("rel:dblslash", f"{g}//metador_x"),
+        # a reserved segment followed by '..' (HDF5 has no '..': a path is judged by its segments as written)
+        ("rel:toc-dotdot", "metador_container/../x_dd"),
+        ("abs:toc-dotdot", "/metador_container/../x_dd"),
+        ("rel:metadir-dotdot", f"{g}/metador_meta_/.."),
+        ("rel:metadir-dotdot-child", f"{g}/metador_meta_b/../y_dd"),
     ]
     res += [(f"nonexist:{lab}", p) for lab, p in nonex]
     # the same names given as bytes (h5py accepts bytes names; IH5 treats them as literal text, so only the h5py driver is asked)
